@@ -61,7 +61,14 @@ func splitVals(s string) []string {
 }
 
 // recordStoreOps drives any workflow.RecordStore with the "ms" operation language.
+func releaseStoreOids(store workflow.RecordStore) {
+	storeOidsMu.Lock()
+	delete(storeOids, store)
+	storeOidsMu.Unlock()
+}
+
 func recordStoreOps(store workflow.RecordStore, ops []string) string {
+	defer releaseStoreOids(store)
 	return recordStoreOpsCreated(store, ops, true)
 }
 
@@ -77,18 +84,14 @@ type oidState struct {
 
 func recordStoreOpsCreated(store workflow.RecordStore, ops []string, withCreated bool) string {
 	ctx := context.Background()
+	// the numbering state lives as long as the caller uses the store; callers that issue their operations one call at a
+	// time (the SQL family) release it with releaseStoreOids when the case is over. (An earlier version purged the whole
+	// table when it grew: with several workers that dropped the state of stores still in use — entry numbers turned 0.)
 	storeOidsMu.Lock()
 	stt := storeOids[store]
 	if stt == nil {
 		stt = &oidState{oids: map[string]int{}, next: 1, wfs: map[string]bool{}}
 		storeOids[store] = stt
-		if len(storeOids) > 4096 {
-			for k := range storeOids {
-				if k != store {
-					delete(storeOids, k)
-				}
-			}
-		}
 	}
 	storeOidsMu.Unlock()
 	storeRecTok := func(r *workflow.Record) string { return storeRecTokC(r, withCreated) }
@@ -98,9 +101,15 @@ func recordStoreOpsCreated(store workflow.RecordStore, ops []string, withCreated
 	for _, op := range ops {
 		f := strings.Split(op, ".")
 		switch f[0] {
-		case "S":
+		case "S", "SB":
 			obj, _ := json.Marshal(Obj{Seed: atoi(f[6])})
-			r := &workflow.Record{WorkflowName: wfName(atoi(f[1])), ForeignID: "f" + f[2], RunID: "r" + f[3], RunState: workflow.RunState(atoi(f[4])),
+			fid := "f" + f[2]
+			if f[0] == "SB" {
+				// a foreign ID that is not valid UTF-8: the outbox entry cannot be encoded (protobuf string field), so Store
+				// must fail as a whole — no record, no entry
+				fid += "\xff\xfe"
+			}
+			r := &workflow.Record{WorkflowName: wfName(atoi(f[1])), ForeignID: fid, RunID: "r" + f[3], RunState: workflow.RunState(atoi(f[4])),
 				Status: atoi(f[5]), Object: obj, CreatedAt: simBase.Add(time.Duration(atoi64(f[7]))), UpdatedAt: simBase.Add(time.Duration(atoi64(f[7]))),
 				Meta: workflow.Meta{Version: uint(atoi(f[8]))}}
 			wfs[r.WorkflowName] = true
@@ -272,7 +281,12 @@ func genStoreOps(r *rand.Rand, n int, mutate bool) []string {
 			if mutate && r.Intn(3) == 0 {
 				mut = 1 + r.Intn(2)
 			}
-			ops = append(ops, fmt.Sprintf("S.%d.%d.%d.%d.%d.%d.%d.%d.%d", o[0], o[1], run, 1+r.Intn(7), 1+r.Intn(3), r.Intn(9), run*10, 1+r.Intn(5), mut))
+			kind := "S"
+			if r.Intn(10) == 0 {
+				kind = "SB" // Store whose outbox entry cannot be encoded: fails, nothing stored
+				mut = 0
+			}
+			ops = append(ops, fmt.Sprintf("%s.%d.%d.%d.%d.%d.%d.%d.%d.%d", kind, o[0], o[1], run, 1+r.Intn(7), 1+r.Intn(3), r.Intn(9), run*10, 1+r.Intn(5), mut))
 		case k < 6:
 			m := 0
 			if mutate && r.Intn(2) == 0 {
@@ -322,6 +336,9 @@ func genMemStore(p *params, emit func(string, bool)) {
 	emit("ms S.1.1.1.5.3.1.10.4.0 S.1.1.2.2.1.2.20.1.0 S.1.1.1.7.3.1.10.5.0 T.1.1.0", true)
 	emit("ms S.1.1.1.2.1.4.10.1.1 L.1.0 T.1.1.0 Q.1.0.0.0.-.-.-", true)
 	emit("ms S.1.1.1.2.1.4.10.1.2 L.1.0", true)
+	// a Store that cannot build its outbox entry stores nothing: new run, and update of an existing run
+	emit("ms SB.1.1.1.2.1.4.10.1.0 L.1.0 T.1.1.0 O.1.10 Q.1.0.0.0.-.-.-", true)
+	emit("ms S.1.1.1.2.1.4.10.1.0 SB.1.1.1.5.2.6.10.2.0 L.1.0 T.1.1.0 O.1.10 Q.1.0.0.0.-.-.-", true)
 	emit("ms S.1.1.1.2.1.4.10.1.0 L.1.1 L.1.0 T.1.1.1 T.1.1.0", true)
 	emit("ms S.1.1.1.2.1.1.10.1.0 S.1.1.2.2.1.2.20.1.0 S.1.1.3.2.1.3.30.1.0 S.1.1.4.2.1.4.40.1.0 S.1.1.5.2.1.5.50.1.0 Q.1.0.2.1.-.-.- Q.1.2.2.1.-.-.- Q.1.4.2.1.-.-.- Q.1.0.2.0.-.-.- Q.1.2.2.0.-.-.-", true)
 	// exhaustive short sequences over a small alphabet
